@@ -1452,6 +1452,9 @@ def check_functions(run, lst, ob):
                              "msg": nme})
     # entries
     exp_entries = expected_entries(case, lst)
+    if expected_entries.kept_then_promoted:
+        ctr["entries_handed_on_by_a_kept_zero_sized_entry"] = \
+            expected_entries.kept_then_promoted
     for f in case.get("funcs", []):
         nme = f["name"]
         if nme not in got_fns:
@@ -1530,8 +1533,19 @@ def expected_entries(case, lst):
         if t.t == "B":
             bpos[t.bid] = (si, t.pos)
     fn_of = {b: f["name"] for f in case.get("funcs", []) for b in f["blocks"]}
+    # blocks that a surviving original instruction branches to or calls:
+    # deleted in front of data they must be kept (documented), and go away -
+    # handing the entry role on - once that data is deleted too
+    label_block = {l: b["id"] for b in seq.values() for l in b["labels"]}
+    targeted = set()
+    for si, ii, t in lst.all_tokens():
+        if t.t == "I" and t.patch is None and t.kind in (
+                "jmp", "jcc", "call") and t.target in label_block and \
+                t.bid != label_block[t.target]:
+            targeted.add(label_block[t.target])
     res = {}
     optional = {}
+    expected_entries.kept_then_promoted = 0
     for f in case.get("funcs", []):
         out = set()
         opt = set()
@@ -1558,10 +1572,17 @@ def expected_entries(case, lst):
                 # a data block deleted in the same rewrite is no longer
                 # between the entry and the following code: promotion across
                 # it is accepted either way
+                kept_until_data_goes = (
+                    cur in targeted and cur in lst.deleted_blocks and
+                    bool(seq[order[cur]]["items"]))
                 while nb is not None and not nb["code"] and (
                         nb["id"] in lst.deleted_blocks or
                         nb["id"] in lst.proxy_deleted):
-                    skipped_data = True
+                    if not kept_until_data_goes or \
+                            nb["id"] in lst.proxy_deleted:
+                        skipped_data = True
+                    else:
+                        expected_entries.kept_then_promoted += 1
                     k += 1
                     nb = seq.get((si, k + 1))
                 if nb is None or not nb["code"] or \
